@@ -15,7 +15,7 @@ RULE = (
     "exports built as Python dicts, written to a per-process temp directory and read by Dominion.read_cvrs: (A) every "
     "sequence of at most M marks over candidate {A,B} x rank {0,1,2} x IsVote {T,F} (hence every order of every multiset) x "
     "enforce_rules x use_current; (B) adjudication: Original only / Original then Modified / Modified then Original (key "
-    "order in the file) x contests present in Original x contests covered by Modified x layout (flat, 'Cards' with one or "
+    "order in the file) x contests present in Original x contests covered by Modified x layout of each block independently (flat, 'Cards' with one or "
     "two cards) x use_current x enforce_rules; (C) 1-2 sessions x counting groups x numeric or obfuscated ('X' + ImageMask) "
     "record identifiers x include_groups x pool_groups; (D) directories of 1-3 export files (plus decoys) through read_cvrs_directory.  Oracle: reference importer written from the property text.  "
     "Non-trivial = export with a repeated candidate, an uncounted mark, adjudicated data or a filtered session; distinct = "
@@ -193,14 +193,15 @@ def part_b_cases():
     for order in (("Original",), ("Original", "Modified"), ("Modified", "Original")):
         for oc in (("c1",), ("c1", "c2")):
             for mc in ((("c1",), ("c2",), ("c1", "c2"), ("c3",)) if "Modified" in order else ((),)):
-                for layout in ("flat", "cards1", "cards2"):
+                # the two blocks of one session need not use the same layout
+                for layout, mlayout in itertools.product(("flat", "cards1", "cards2"), ("flat", "cards1", "cards2") if "Modified" in order else (None,)):
                     for ov, mv in itertools.product("abd", "bcd"):
                         parts = []
                         for k in order:
                             if k == "Original":
                                 parts.append(("Original", [(c, VARIANTS[ov]) for c in oc], layout))
                             else:
-                                parts.append(("Modified", [(c, VARIANTS[mv]) for c in mc], layout))
+                                parts.append(("Modified", [(c, VARIANTS[mv]) for c in mc], mlayout))
                         for uc in (True, False):
                             for er in (True, False):
                                 yield [(7, 3, 11, 2, parts)], O(use_current=uc, enforce_rules=er)
